@@ -403,8 +403,9 @@ func corpusClasses(c Corpus, st *caseStats) []string {
 			cls = append(cls, s)
 		}
 	}
+	add(c.Offline > 0, "corpus:offline-writer-merged")
 	add(c.FS, "corpus:file-system")
-	add(!c.FS, "corpus:in-memory")
+	add(!c.FS && c.Offline == 0, "corpus:in-memory")
 	add(c.Reopen, "corpus:open-reader")
 	add(c.Merge, "corpus:merger-on")
 	add(c.SegV2, "corpus:segment-v2")
